@@ -5,7 +5,7 @@
 // (ScriptSock::send_hook), every FastFlow atomic of the outbound queue (ff_shim.hpp), sched_yield in the blocking pop.
 // All schedules up to a preemption bound; oracle on every complete execution.  The `tsan` variant runs the same schedules
 // with ThreadSanitizer watching (the scheduler's hand-offs are invisible to it, see sched.cpp).
-// args: pm=t|p  ops=<script per thread, comma separated; s = send, n = send with destroy=false, b = send_batch of 2, B = send_batch of 3, a = process one inbound in-sequence NewOrderSingle (must reach the application), r = process one inbound
+// args: pm=t|p  ops=<script per thread, comma separated; s = send, m = send(Message&), n = send with destroy=false, b = send_batch of 2, B = send_batch of 3, a = process one inbound in-sequence NewOrderSingle (must reach the application), r = process one inbound
 //       in-sequence Heartbeat as the reader thread would (at most one thread with r steps)>  pm=t2|p2: two sessions in the process, thread t drives session t % 2   pk=m|f  bound=<n>  start=<first number>
 // With pk=f the store's lseek/read/write calls are scheduling points too and the files are reopened by a fresh FilePersister at the end.
 #include <fix8/f8includes.hpp>
@@ -74,9 +74,12 @@ static void *sender(void *a)
 			const std::string body = "11=" + id + "\001" "21=1\001" "55=IBM\001" "54=1\001" "60=20231114-22:13:20\001" "40=1\001";
 			r.ok = ses->process(sim::mk("FIX.4.2", h, body)); r.n = 0; continue;
 		}
-		const int n = sc[o] == 's' || sc[o] == 'n' ? 1 : sc[o] == 'b' ? 2 : 3;
+		const int n = sc[o] == 's' || sc[o] == 'n' || sc[o] == 'm' ? 1 : sc[o] == 'b' ? 2 : 3;
 		for (int e = 0; e < n; ++e) r.ids.push_back("T" + std::to_string(t) + "O" + std::to_string(o) + "E" + std::to_string(e));
 		if (sc[o] == 's') { r.ok = ses->send(nos(r.ids[0]), true); r.n = r.ok ? 1 : 0; }
+		else if (sc[o] == 'm') {	// the by-reference overload Session::send(Message&): its own path through FIXWriter::write(Message&); threaded model only (the library refuses it when pipelining)
+			Message *m = nos(r.ids[0]); r.ok = ses->send(*m); r.n = r.ok ? 1 : 0; delete m;
+		}
 		else if (sc[o] == 'n') {	// send(msg, destroy = false): the caller keeps the message in the threaded model; the pipelined model ignores the flag (documented) and its writer thread frees it
 			Message *m = nos(r.ids[0]); r.ok = ses->send(m, false); r.n = r.ok ? 1 : 0; if (PM == 't') delete m;
 		}
@@ -112,7 +115,7 @@ static std::string body()
 		c.ses->_connection = c.conn; c.ses->_next_send_seq = START; c.ses->_next_receive_seq = 1; c.ses->_state = States::st_continuous; c.ses->_active = true;
 		if (PM == 'p') c.conn->_writer.start();
 	}
-	size_t total = 0; for (auto& s : SCRIPTS) for (char c : s) total += c == 's' || c == 'n' ? 1 : c == 'b' ? 2 : c == 'B' ? 3 : 0;
+	size_t total = 0; for (auto& s : SCRIPTS) for (char c : s) total += c == 's' || c == 'n' || c == 'm' ? 1 : c == 'b' ? 2 : c == 'B' ? 3 : 0;
 	pthread_t pt[8];
 	for (long i = 0; i < (long)SCRIPTS.size(); ++i) pthread_create(&pt[i], 0, sender, (void *)i);
 	for (size_t i = 0; i < SCRIPTS.size(); ++i) pthread_join(pt[i], 0);
